@@ -1,8 +1,9 @@
 (* L1 for C19: map_, filter_ and setcol as datamatrix/functional.py computes them, on the scripts
    regenerated from the source (Gen/KFunctional.v):
-     map_     copy `obj[:]` (positional slice), then per row: read the Row in column_names order,
-              d.update(fnc( d )), write EVERY item of d back through Row.__setitem__ (which creates a
-              missing column with the default value first) and the integer-key cell write;
+     map_     copy `obj[:]` (positional slice), then per pair (row of the copy, row of the source): read the
+              SOURCE Row in its column_names order, d.update(fnc( d )), write EVERY item of d back into the
+              row of the copy through Row.__setitem__ (which creates a missing column with the default
+              value first) and the integer-key cell write;
      filter_  the list of row ids of the rows / cells that pass, then DataMatrix._selectrowid, which
               fetches the cells BY ID through the position dict of the Index; for a column
               `(col == fnc)[col.name]` through BaseColumn._compare / _compare_function;
@@ -130,15 +131,17 @@ Definition l_row_set (t : ltab) (i : nat) (key : string) (v : pyv) : res ltab :=
   | Raise e => Raise e
   end.
 
-(* ---------- map_ *)
-Definition l_map_row (f : row -> upd) (t : ltab) (i : nat) : res ltab :=
-  bind (l_getrow t i) (fun i' =>
-    let items := l_row_items t i' in
-    let d := dict_update (row_dict items) (f (canon items)) in
-    fold_left (fun acc kv => bind acc (fun t' => l_row_set t' i' (fst kv) (snd kv))) d (Ok t)).
+(* ---------- map_ : for row, source_row in zip(dm, obj) *)
+Definition l_map_row (f : row -> upd) (src t : ltab) (ii : nat * nat) : res ltab :=
+  bind (l_getrow t (fst ii)) (fun i =>
+  bind (l_getrow src (snd ii)) (fun i' =>
+    let items := l_row_items src i' in                               (* d = {col: val for col, val in source_row} *)
+    let d := dict_update (row_dict items) (f (canon items)) in       (* d.update(fnc( d )) *)
+    fold_left (fun acc kv => bind acc (fun t' => l_row_set t' i (fst kv) (snd kv))) d (Ok t))).
 Definition l_map_dm (f : row -> upd) (t : ltab) : res ltab :=
   bind (l_copy t) (fun dm =>
-    fold_left (fun acc i => bind acc (fun t' => l_map_row f t' i)) (seq 0 (l_len dm)) (Ok dm)).
+    fold_left (fun acc ii => bind acc (fun t' => l_map_row f t t' ii))
+              (combine (seq 0 (l_len dm)) (seq 0 (l_len t))) (Ok dm)).
 (* BaseColumn._map / NumericColumn._map: [fnc(val) for val in self._seq], cast to the dtype for numeric columns *)
 Definition l_map_col (g : val -> pyv) (c : col) : res col :=
   bind (map_res (fun v => mapped_cell (ckind c) (g v)) (ccells c)) (fun xs => Ok (with_cells c xs)).
